@@ -180,7 +180,8 @@ edn_value_t* edn_read_character(edn_parser_t* parser) {
             parser->error = EDN_ERROR_INVALID_CHARACTER;
             parser->error_message = "Invalid Unicode escape sequence in character literal";
             parser->error_start = start;
-            parser->error_end = ptr + 4;
+            /* fewer than four bytes may remain: keep the range inside the input */
+            parser->error_end = (ptr + 4 <= end) ? ptr + 4 : end;
             return NULL;
         }
         ptr += digits_consumed;
@@ -189,7 +190,8 @@ edn_value_t* edn_read_character(edn_parser_t* parser) {
             parser->error = EDN_ERROR_INVALID_CHARACTER;
             parser->error_message = "Invalid Unicode escape sequence in character literal";
             parser->error_start = start;
-            parser->error_end = ptr + 4;
+            /* fewer than four bytes may remain: keep the range inside the input */
+            parser->error_end = (ptr + 4 <= end) ? ptr + 4 : end;
             return NULL;
         }
         ptr += 4;
